@@ -100,3 +100,223 @@ Proof.
   - intros k [<-|Hk]; [lia|]. specialize (H2 k Hk). lia.
   - constructor; auto. intros Hin. specialize (H2 n Hin). lia.
 Qed.
+
+Lemma label_all_range : forall rs n n' L, label_all rs n = (n', L) ->
+  (n <= n')%N /\ (forall k, In k (labels L) -> (n <= k < n')%N) /\ NoDup (labels L).
+Proof.
+  induction rs as [|r rs IH]; intros n n' L; cbn [label_all].
+  - intros [= <- <-]. split; [lia|]. split; [intros k []|constructor].
+  - destruct (label None r n) as [k1 l1] eqn:E1. destruct (label_all rs k1) as [k2 l2] eqn:E2.
+    intros [= <- <-]. apply label_range in E1 as (H1 & H2 & H3). apply IH in E2 as (H4 & H5 & H6).
+    split; [lia|]. unfold labels in *. rewrite map_app. split.
+    + intros x Hx. apply in_app_iff in Hx as [Hx|Hx]; [specialize (H2 x Hx)|specialize (H5 x Hx)]; lia.
+    + apply NoDup_app_disjoint; auto. intros x Hx1 Hx2. specialize (H2 x Hx1). specialize (H5 x Hx2). lia.
+Qed.
+
+(* top-level results are exactly the nodes without parent, one per result *)
+Definition toplevel (L:list labelled) : list labelled :=
+  filter (fun x => match snd (fst x) with None => true | Some _ => false end) L.
+
+Lemma toplevel_app a b : toplevel (a ++ b) = toplevel a ++ toplevel b.
+Proof. unfold toplevel. apply filter_app. Qed.
+
+Lemma label_toplevel : forall r parent n, 
+  toplevel (snd (label parent r n)) = match parent with None => [(n, None, r)] | Some _ => [] end.
+Proof.
+  fix IH 1. intros [f v p c s sev msgs details] parent n. cbn [label].
+  set (go := fix go (ds:list vresult) (k:N) : N * list labelled :=
+         match ds with
+         | [] => (k, [])
+         | d :: ds' => let '(k1, l1) := label (Some n) d k in
+                       let '(k2, l2) := go ds' k1 in (k2, l1 ++ l2)
+         end).
+  assert (Hgo : forall ds k, toplevel (snd (go ds k)) = []).
+  { induction ds as [|d ds IHds]; intros k; cbn [go]; [reflexivity|].
+    pose proof (IH d (Some n) k) as Hd. destruct (label (Some n) d k) as [k1 l1]. simpl in Hd.
+    pose proof (IHds k1) as Hr. destruct (go ds k1) as [k2 l2]. simpl in *.
+    rewrite toplevel_app, Hd, Hr. reflexivity. }
+  pose proof (Hgo details (N.succ n)) as H. destruct (go details (N.succ n)) as [k' sub]. simpl in *.
+  change (toplevel ((n, parent, VR f v p c s sev msgs details) :: sub)) with
+    ((if match parent with None => true | Some _ => false end then [(n, parent, VR f v p c s sev msgs details)] else []) ++ toplevel sub).
+  rewrite H. destruct parent; reflexivity.
+Qed.
+
+Lemma label_all_toplevel : forall rs n, length (toplevel (snd (label_all rs n))) = length rs.
+Proof.
+  induction rs as [|r rs IH]; intros n; cbn [label_all]; [reflexivity|].
+  pose proof (label_toplevel r None n) as Hr. destruct (label None r n) as [k1 l1]. simpl in Hr.
+  pose proof (IH k1) as Hs. destruct (label_all rs k1) as [k2 l2]. simpl in *.
+  rewrite toplevel_app, app_length, Hr, Hs. reflexivity.
+Qed.
+
+(* ---- counting triples ---- *)
+Lemma count_sp_app T1 T2 s p : count_sp (T1 ++ T2) s p = count_sp T1 s p + count_sp T2 s p.
+Proof. unfold count_sp. rewrite filter_app, app_length. reflexivity. Qed.
+
+Lemma count_sp_flat_map {A} (f:A -> list triple) L s p :
+  count_sp (flat_map f L) s p = fold_right (fun x acc => count_sp (f x) s p + acc) 0 L.
+Proof. induction L as [|x L IH]; simpl; [reflexivity|]. rewrite count_sp_app, IH. reflexivity. Qed.
+
+Definition is_link (p:term) : bool := term_eqb p p_result || term_eqb p p_detail.
+
+(* a result node's own description: predicates other than the sh:result / sh:detail links *)
+Lemma node_triples_other report x s p : is_link p = false -> s <> BN (fst (fst x)) ->
+  count_sp (node_triples report x) s p = 0.
+Proof.
+  destruct x as [[n parent] r]. intros Hl Hs. simpl in Hs. unfold node_triples. cbn [fst].
+  assert (Hne : term_eqb (BN n) s = false) by (destruct (term_eqb_spec (BN n) s); congruence).
+  unfold count_sp. cbn [filter tsubj tpred fst snd app].
+  assert (H1 : term_eqb (match parent with None => p_result | Some _ => p_detail end) p = false).
+  { unfold is_link in Hl. apply orb_false_iff in Hl as [Ha Hb].
+    destruct parent; [destruct (term_eqb_spec p_detail p); [subst; rewrite term_eqb_refl in Hb; discriminate|reflexivity]
+                     |destruct (term_eqb_spec p_result p); [subst; rewrite term_eqb_refl in Ha; discriminate|reflexivity]]. }
+  rewrite H1, andb_false_r. rewrite Hne. simpl.
+  rewrite !filter_app. 
+  assert (Hf : forall l, (forall t, In t l -> tsubj t = BN n) ->
+            filter (fun t => term_eqb (tsubj t) s && term_eqb (tpred t) p) l = []).
+  { induction l as [|t l IHl]; intros Hall; simpl; [reflexivity|].
+    rewrite (Hall t (or_introl eq_refl)), Hne. simpl. apply IHl. intros t' Ht'. apply Hall. right; auto. }
+  rewrite !Hf; [reflexivity| | |].
+  - intros t Ht. apply in_map_iff in Ht as (m & <- & _). reflexivity.
+  - intros t Ht. unfold opt_triple in Ht. destruct (rpath r); [destruct Ht as [<-|[]]; reflexivity|destruct Ht].
+  - intros t Ht. unfold opt_triple in Ht. destruct (rvalue r); [destruct Ht as [<-|[]]; reflexivity|destruct Ht].
+Qed.
+
+Lemma msgs_count n (ms:list term) q : term_eqb p_msg q = false ->
+  length (filter (fun t => term_eqb (tsubj t) (BN n) && term_eqb (tpred t) q) (map (fun m => (BN n, p_msg, m)) ms)) = 0.
+Proof. intros H. induction ms as [|m ms IH]; simpl; [reflexivity|]. rewrite N.eqb_refl. simpl. unfold p_msg in H. simpl in H. rewrite H. exact IH. Qed.
+
+Ltac own_count :=
+  intros; unfold node_triples, count_sp, opt_triple;
+  match goal with |- context [rvalue ?r] => destruct (rvalue r) end;
+  match goal with |- context [rpath ?r] => destruct (rpath r) end;
+  match goal with parent : option N |- _ => destruct parent end;
+  rewrite ?filter_app, ?app_length, ?msgs_count by reflexivity;
+  simpl; rewrite ?andb_false_r, ?N.eqb_refl; simpl; rewrite ?andb_false_r; simpl; reflexivity.
+
+(* every result node has exactly one rdf:type, sh:sourceConstraintComponent, sh:sourceShape,
+   sh:resultSeverity and sh:focusNode, and at most one sh:value and sh:resultPath *)
+Lemma own_type report n parent r : count_sp (node_triples report (n, parent, r)) (BN n) p_type = 1.
+Proof. own_count. Qed.
+Lemma own_comp report n parent r : count_sp (node_triples report (n, parent, r)) (BN n) p_comp = 1.
+Proof. own_count. Qed.
+Lemma own_shape report n parent r : count_sp (node_triples report (n, parent, r)) (BN n) p_shape = 1.
+Proof. own_count. Qed.
+Lemma own_sev report n parent r : count_sp (node_triples report (n, parent, r)) (BN n) p_sev = 1.
+Proof. own_count. Qed.
+Lemma own_focus report n parent r : count_sp (node_triples report (n, parent, r)) (BN n) p_focus = 1.
+Proof. own_count. Qed.
+Lemma own_value report n parent r :
+  count_sp (node_triples report (n, parent, r)) (BN n) p_value = match rvalue r with Some _ => 1 | None => 0 end.
+Proof. own_count. Qed.
+Lemma own_path report n parent r :
+  count_sp (node_triples report (n, parent, r)) (BN n) p_path = match rpath r with Some _ => 1 | None => 0 end.
+Proof. own_count. Qed.
+
+(* ---- the whole report graph ---- *)
+Lemma fold_zero {A} (g:A -> nat) (L:list A) : (forall y, In y L -> g y = 0) ->
+  fold_right (fun y acc => g y + acc) 0 L = 0.
+Proof. induction L as [|a L IH]; simpl; intros H; [reflexivity|]. rewrite (H a), IH; auto. Qed.
+
+Lemma fold_single {A} (g:A -> nat) (key:A -> N) (L:list A) x :
+  NoDup (map key L) -> In x L -> (forall y, In y L -> key y <> key x -> g y = 0) ->
+  fold_right (fun y acc => g y + acc) 0 L = g x.
+Proof.
+  induction L as [|a L IH]; simpl; intros Hn Hx Hz; [destruct Hx|].
+  inversion Hn as [|? ? Ha Hl]; subst. destruct Hx as [->|Hx].
+  - rewrite fold_zero; [lia|]. intros y Hy. apply Hz; [right; auto|].
+    intros Hk. apply Ha. rewrite <- Hk. apply in_map. exact Hy.
+  - rewrite (Hz a (or_introl eq_refl)).
+    + simpl. apply IH; auto.
+    + intros Hk. apply Ha. rewrite Hk. apply in_map. exact Hx.
+Qed.
+
+Section Wf.
+Variable report : term.
+Hypothesis report_not_bnode : forall k, report <> BN k.   (* the report node is a fresh node of its own *)
+Variables (base:N) (conforms:bool) (rs:list vresult).
+Let L := snd (label_all rs base).
+Let T := report_graph report base conforms rs.
+
+Lemma labels_nodup : NoDup (labels L).
+Proof.
+  unfold L. destruct (label_all rs base) as [n' L0] eqn:E. apply label_all_range in E as (_ & _ & H). exact H.
+Qed.
+
+(* the description of a result node in the whole report is its own description *)
+Theorem result_node_description n parent r p :
+  In (n, parent, r) L -> is_link p = false ->
+  count_sp T (BN n) p = count_sp (node_triples report (n, parent, r)) (BN n) p.
+Proof.
+  intros Hin Hl. unfold T, report_graph. fold L.
+  change ((report, p_type, c_report) :: (report, p_conforms, bool_lit conforms) :: flat_map (node_triples report) L)
+    with ([(report, p_type, c_report); (report, p_conforms, bool_lit conforms)] ++ flat_map (node_triples report) L).
+  rewrite count_sp_app.
+  assert (Hhead : count_sp [(report, p_type, c_report); (report, p_conforms, bool_lit conforms)] (BN n) p = 0).
+  { unfold count_sp. cbn [filter tsubj tpred fst snd].
+    destruct (term_eqb_spec report (BN n)) as [E|_]; [exfalso; exact (report_not_bnode n E)|reflexivity]. }
+  rewrite Hhead, count_sp_flat_map. simpl.
+  apply (fold_single (fun x => count_sp (node_triples report x) (BN n) p) (fun x => fst (fst x)) L (n, parent, r)).
+  - exact labels_nodup.
+  - exact Hin.
+  - intros y Hy Hk. apply node_triples_other; auto. simpl in Hk. intros [= E]. apply Hk. symmetry. exact E.
+Qed.
+
+(* C06: every result node is a sh:ValidationResult with exactly one sh:focusNode,
+   sh:resultSeverity, sh:sourceConstraintComponent, sh:sourceShape and at most one sh:value, sh:resultPath *)
+Theorem result_node_wf n parent r : In (n, parent, r) L ->
+  count_sp T (BN n) p_type = 1 /\ count_sp T (BN n) p_focus = 1 /\ count_sp T (BN n) p_sev = 1
+  /\ count_sp T (BN n) p_comp = 1 /\ count_sp T (BN n) p_shape = 1
+  /\ count_sp T (BN n) p_value <= 1 /\ count_sp T (BN n) p_path <= 1.
+Proof.
+  intros Hin. rewrite !(result_node_description n parent r) by (auto; reflexivity).
+  rewrite own_type, own_focus, own_sev, own_comp, own_shape, own_value, own_path.
+  repeat split; auto; [destruct (rvalue r)|destruct (rpath r)]; lia.
+Qed.
+
+(* one sh:ValidationReport node with one sh:conforms literal equal to the verdict, and as many
+   sh:result links as top-level results *)
+Theorem report_node_wf :
+  count_sp T report p_type = 1 /\ In (report, p_conforms, bool_lit conforms) T
+  /\ count_sp T report p_conforms = 1 /\ count_sp T report p_result = length rs.
+Proof.
+  unfold T, report_graph. fold L.
+  change ((report, p_type, c_report) :: (report, p_conforms, bool_lit conforms) :: flat_map (node_triples report) L)
+    with ([(report, p_type, c_report); (report, p_conforms, bool_lit conforms)] ++ flat_map (node_triples report) L).
+  assert (Hcnt0 : forall l n q, (forall t, In t l -> tsubj t = BN n) -> count_sp l report q = 0).
+  { intros l n q. unfold count_sp. induction l as [|t l IHl]; intros Hall; simpl; [reflexivity|].
+    rewrite (Hall t (or_introl eq_refl)).
+    destruct (term_eqb_spec (BN n) report) as [E|_]; [exfalso; exact (report_not_bnode n (eq_sym E))|].
+    simpl. apply IHl. intros t' Ht'. apply Hall. right; auto. }
+  assert (Hnode : forall x q, count_sp (node_triples report x) report q =
+             if term_eqb q p_result then match snd (fst x) with None => 1 | Some _ => 0 end else 0).
+  { intros [[n parent] r] q. unfold node_triples. cbn [fst snd]. rewrite !count_sp_app.
+    rewrite (Hcnt0 (opt_triple (BN n) p_value (rvalue r)) n), (Hcnt0 (opt_triple (BN n) p_path (rpath r)) n),
+            (Hcnt0 (map (fun m => (BN n, p_msg, m)) (rmsgs r)) n).
+    - unfold count_sp. cbn [filter tsubj tpred fst snd].
+      assert (Hrn : term_eqb (BN n) report = false).
+      { destruct (term_eqb_spec (BN n) report) as [E|_]; [exfalso; exact (report_not_bnode n (eq_sym E))|reflexivity]. }
+      rewrite !Hrn. cbn [andb]. destruct parent as [k|].
+      + destruct (term_eqb_spec (BN k) report) as [E|_]; [exfalso; exact (report_not_bnode k (eq_sym E))|].
+        cbn [andb length]. destruct (term_eqb q p_result); reflexivity.
+      + rewrite term_eqb_refl. cbn [andb].
+        destruct (term_eqb_spec p_result q) as [<-|Hne]; [rewrite term_eqb_refl; reflexivity|].
+        destruct (term_eqb_spec q p_result); [congruence|reflexivity].
+    - intros t Ht. apply in_map_iff in Ht as (m & <- & _). reflexivity.
+    - intros t Ht. unfold opt_triple in Ht. destruct (rpath r); [destruct Ht as [<-|[]]; reflexivity|destruct Ht].
+    - intros t Ht. unfold opt_triple in Ht. destruct (rvalue r); [destruct Ht as [<-|[]]; reflexivity|destruct Ht]. }
+  assert (Hsum : forall q, count_sp (flat_map (node_triples report) L) report q =
+            if term_eqb q p_result then length (toplevel L) else 0).
+  { intros q. rewrite count_sp_flat_map. induction L as [|x L0 IH]; simpl; [destruct (term_eqb q p_result); reflexivity|].
+    rewrite IH, Hnode. unfold toplevel. simpl. destruct (term_eqb q p_result); [|reflexivity].
+    destruct (snd (fst x)); simpl; lia. }
+  rewrite !count_sp_app, !Hsum.
+  assert (Htop : length (toplevel L) = length rs) by (unfold L; apply label_all_toplevel).
+  repeat split.
+  - unfold count_sp. cbn [filter tsubj tpred fst snd]. rewrite !term_eqb_refl. simpl. reflexivity.
+  - apply in_or_app. left. right. left. reflexivity.
+  - unfold count_sp. cbn [filter tsubj tpred fst snd]. rewrite !term_eqb_refl. simpl. reflexivity.
+  - unfold count_sp. cbn [filter tsubj tpred fst snd]. rewrite !term_eqb_refl. simpl. exact Htop.
+Qed.
+
+End Wf.
